@@ -39,11 +39,19 @@ func (g *gen) lit(t Type, d int) string {
 		}
 		return "any(" + g.expr(inner, d+1) + ")"
 	case TBox:
-		switch g.intn(3, "boxkind") {
+		switch g.intn(4, "boxkind") {
 		case 0:
 			return "&BoxA{v: " + g.expr(TStr, d+1) + "}"
 		case 1:
 			return "&BoxB{l: []string{" + g.expr(TStr, d+1) + "}}"
+		case 2:
+			// value-receiver methods that call a function held in a field; boxed by pointer (reached through the
+			// synthetic pointer wrapper) or by value
+			amp := "&"
+			if g.chance(40, "boxdval") {
+				amp = ""
+			}
+			return amp + "BoxD{f: " + g.expr(TFunc, d+1) + ", v: " + g.expr(TStr, d+1) + "}"
 		default:
 			if g.off("iface-boxes-ref") {
 				return "&BoxA{v: " + g.expr(TStr, d+1) + "}"
